@@ -250,6 +250,12 @@ func c20Run(c *core.Ctx, idx int) {
 		})
 		c.Count("trees.random")
 	}
+	if sp := core.NewRng(core.Mix(uint64(c.Seed)+0x5b1ce, uint64(idx))); sp.Chance(1, 6) {
+		// (own PRNG stream, so that the rest of the case is what it was without this step)
+		if did := Spice(sp, tree, sp.Chance(1, 2), sp.Chance(1, 2), sp.Chance(1, 2)); did != "" {
+			c.Count("trees.spiced." + strings.TrimSpace(strings.ReplaceAll(strings.TrimSpace(did), " ", "+")))
+		}
+	}
 	root := tree.BuildStack()
 	desc := map[string]any{"tree": tree}
 	before := describeLive(root, 0)
